@@ -7,7 +7,8 @@ from props import rcu_common as R
 def run(ctx):
     progs = R.PROGRAMS + [R.gen_program(ctx.rng) for _ in range(1 if ctx.quick() else 8)]
     st = [("dfs", 600 if ctx.quick() else 50000, 1 if ctx.quick() else 2), ("pct", 80 if ctx.quick() else 3000, 0), ("random", 40 if ctx.quick() else 1500, 0)]
-    jobs = make_jobs(ctx, "rcu", R.VARIANTS, progs, strat=st)
+    deep = [("dfs", 7000 if ctx.quick() else 400000, 3 if ctx.quick() else 4)]
+    jobs = make_jobs(ctx, "rcu", R.VARIANTS, progs, strat=st) + make_jobs(ctx, "rcu", R.DEEP_VARIANTS if ctx.quick() else R.VARIANTS, R.DEEP, strat=deep)
     vlib.run_jobs(ctx, jobs)
     vlib.validate_histories(ctx, jobs, "RcuSafety", R.CONSTS + ['Clause = "once"'])
     ctx.impl_runs.append({"driver": "rcu", "variants": R.VARIANTS, "programs": progs, "strategies": st})
